@@ -39,7 +39,7 @@ RULE = ("every (cell set, filled flag, cell-size ratio m/2, coarse dimensions, i
         "cell or falls outside; a voronoi case is non-trivial when there are >= 2 points and >= 2 cells. Cases are "
         "generated once each by nested enumeration of distinct parameter values (distinct by construction).")
 ASSUMPTIONS = [
-    "a centre exactly on an interior coarse edge may be counted in either adjacent cell (any one), a centre exactly on the outer boundary may be counted in the adjacent boundary cell or not at all; exact feasibility is decided by a bipartite flow",
+    "a centre exactly on an interior coarse edge may be counted in either adjacent cell (any one); a centre exactly on the outer boundary is inside the grid exactly when the library's own Grid.coord2cell puts it in a cell (the property is silent there; intersect and coord2cell must agree); exact feasibility is decided by a bipartite flow",
     "no catchment centre can fall inside the grid: an empty result and a ValueError are both accepted (property silent)",
     "empty catchment passed to voronoi (0/0) is not judged",
     "weights compared through count = weight x (m/2)^2 to 1e-6, sums to 1e-9 relative; voronoi weights to 1e-12",
@@ -211,9 +211,26 @@ def check_intersect(ctx, catch, cells, fine, geom, m, nrc, ncc, relx, rely, fill
     h = cf / 2
     groups = {}
     near_lb = False
+    grid0 = None
     for c in cells:
         X, Y = centre_h(c, nr, nc, fx, fy)
         al = allowed_cells(X, Y, m, nrc, ncc, ox, oy)
+        if OUT in al and len(al) > 1:
+            # centre exactly on the grid's outer boundary: the property leaves "inside the grid" open there;
+            # the library's own answer (Grid.coord2cell of that centre) is taken as the definition, so that
+            # intersect and coord2cell cannot disagree about which boundary points belong to the grid
+            try:
+                if grid0 is None:
+                    grid0 = make_coarse(cf, m, nrc, ncc, ox, oy)
+                cc = int(grid0.coord2cell(catch.flowdir.cell2coord(c))[0])
+                if cc < 0:
+                    al = frozenset([OUT])
+                    ctx.count("intersect.boundary_centre_outside_by_coord2cell")
+                elif cc in al:
+                    al = frozenset([cc])
+                    ctx.count("intersect.boundary_centre_inside_by_coord2cell")
+            except Exception:
+                pass
         groups[al] = groups.get(al, 0) + 1
         u, w = X - ox, Y - oy
         if (u < 0 or w < 0) and -m <= u <= m * ncc and -m <= w <= m * nrc:
